@@ -77,3 +77,13 @@ Print Assumptions c09_chk_bracket_sound.
 (* non-vacuity: a 2-d step with k = 1 meets the hypotheses *)
 Example c09_example_cutoff : cutoff 1 [4; 1; 0] == 1 /\ deflate 1 [4; 1; 0] = [4 - 1].
 Proof. split; reflexivity. Qed.
+
+(* the same verdict stated on the sketch's own quadratic form  B(x) = sum_i l_i (v_i . x)^2,
+   i.e. literally the bracket predicate of c09_fd_step_bracket on the implementation's state *)
+Theorem c09_chk_bracket_sound_form : forall tau n C V l t, chk_bracket tau n C V l t = true ->
+  Forall (fun v => length v = n) V -> length V = length l ->
+  forall x, length x = n ->
+    sketch_form V l x - tau * dot x x <= qf C x /\
+    qf C x <= sketch_form V l x + (t + tau) * dot x x.
+Proof. exact chk_bracket_sound_form. Qed.
+Print Assumptions c09_chk_bracket_sound_form.
